@@ -264,7 +264,8 @@ class Parser(Node):
             self.value_slice = dim
 
     def part_format(self):  # template reference text format
-        m=re.match(r'^(:[0-9.]*[sdfeb]+)', self.ccode)
+        # Python's format specification: [[fill]align][sign][z][#][0][width][grouping][.precision][type]
+        m=re.match(r'^(:(?:.?[<>=^])?[+\- ]?z?#?0?[0-9]*[_,]?(?:\.[0-9]+)?[bcdeEfFgGnosxX%]?)(?=})', self.ccode)
         if m:
             self.parsed.append('part_format')
             self.formating = m.group(1)
